@@ -20,8 +20,18 @@ def evals_of(step):
     return out
 
 
-def forward(cls, lam):
+def shift_of(line):
+    """(sigma, sigmai) of a history line"""
+    m = dict(x.split('=', 1) for x in (line or '').split()[1:] if '=' in x)
+    try:
+        return float(m.get('sigma', SIGMA)), float(m.get('sigmai', SIGMAI))
+    except ValueError:
+        return SIGMA, SIGMAI
+
+
+def forward(cls, lam, sig=None):
     """the spectrum the iteration (and hence the selection rule) acts on"""
+    SIGMA, SIGMAI = sig if sig else (0.37, 0.2)
     if cls in ('SymEigsShiftSolver', 'GenEigsRealShiftSolver', 'SymGEigsShiftSolver_ShiftInvert'):
         return 1.0 / (lam - SIGMA)
     if cls == 'SymGEigsShiftSolver_Buckling':
@@ -39,9 +49,9 @@ def key(rule, x):
     return {0: -abs(x), 1: -x.real, 2: -abs(x.imag), 3: -x.real, 4: abs(x), 5: x.real, 6: abs(x.imag), 7: x.real}[rule]
 
 
-def wanted(cls, rule, ref, k):
+def wanted(cls, rule, ref, k, sig=None):
     """the k reference eigenvalues the rule names (in the rule's spectrum); None if the cut falls in a tie/too small a gap"""
-    nus = [(forward(cls, l), l) for l in ref]
+    nus = [(forward(cls, l, sig), l) for l in ref]
     if rule == 8:
         srt = sorted(nus, key=lambda p: -p[0].real)
         top = srt[:(k + 1) // 2] + srt[len(srt) - k // 2:] if k // 2 else srt[:(k + 1) // 2]
@@ -90,6 +100,14 @@ def calm_cases(rng, tier, classes, per_q, per_t, hist='short', want_ref=False, o
             scale = 1.0 if (shifty or 'SymG' in cls) else rng.choice([1.0, 1.0, 1e-3, 1e3])
             sel = rng.choice(sels); srt = rng.choice(sorts)
             start = 'I' if rng.below(2) else 'V:r%d' % rng.below(1000)
+            sig = (SIGMA, SIGMAI)
+            if cls == 'GenEigsComplexShiftSolver' and h % 3 == 1:
+                # complex shifts whose disc |lambda - Re sigma| < |Im sigma| contains wanted eigenvalues (the inner root of the back-transformation is the right one)
+                sig = rng.choice([(1.1, 2.5), (3.1, 0.6), (1.1, -2.2), (2.6, 1.5)]); gfam = 'gnormal'; sel = 0; ncv = max(ncv, min(n, 2 * nev + 6))
+            if cls in ('SymEigsSolver', 'HermEigsSolver') and h % 8 == 5:
+                # operators that act as a multiple of the identity on the start vector: the very first residual is rounding noise (init()'s special branch),
+                # every step is a breakdown; rules for which a spurious zero Ritz value would be among the wanted ones
+                fam = rng.choice(['identity', 'repeated']); scale = 1.0; start = 'I'; sel = rng.choice([4, 7, 8]); srt = rng.choice(sorts)
             if is_gen(cls) and h % 4 == 3:
                 # Krylov breakdown: block-diagonal normal matrix, start vector inside the invariant subspace of the leading block
                 gfam = 'gblock'; start = 'V:b%d' % rng.below(1000); ncv = max(ncv, min(n, max(2, n // 3) + 2))
@@ -103,7 +121,7 @@ def calm_cases(rng, tier, classes, per_q, per_t, hist='short', want_ref=False, o
                     ops.append('C:%d:%d:%s:%d' % (rng.choice(sels), rng.choice([2, 1000]), rng.choice(['1e-10', '1e-6']), rng.choice(sorts)))
                 if rng.below(5) == 0:
                     ops += ['I', 'C:%d:1000:1e-10:%d' % (rng.choice(sels), rng.choice(sorts))]
-            out.append((cls, n, nev, ncv, scale, hist_line(cls, n, nev, ncv, ops, fam=fam, gfam=gfam, mseed=rng.below(10 ** 6), scale=scale, sigma=SIGMA, sigmai=SIGMAI,
+            out.append((cls, n, nev, ncv, scale, hist_line(cls, n, nev, ncv, ops, fam=fam, gfam=gfam, mseed=rng.below(10 ** 6), scale=scale, sigma=sig[0], sigmai=sig[1],
                                                            extra='ref=1' if want_ref else '')))
     return out
 
